@@ -25,10 +25,12 @@ class Settings:
         self.non = dict(base_env)
         self.timeout = DEFAULT_TIMEOUT
         self.cwd = 'act'
+        self.copied = {}  # directory -> names of the files that `copy SOURCE` (no destination) has put there
 
     def copy(self):
         s = Settings({})
         s.act, s.non, s.timeout, s.cwd = dict(self.act), dict(self.non), self.timeout, self.cwd
+        s.copied = {k: set(v) for k, v in self.copied.items()}
         return s
 
     def apply(self, fx, phase):
@@ -49,13 +51,17 @@ class Settings:
             self.timeout = fx[1]
         elif k == 'cd':
             self.cwd = posixpath.normpath(fx[1] if not fx[1].startswith('./') else posixpath.join(self.cwd, fx[1][2:]))
+        elif k == 'copy':
+            # `copy SOURCE` without a destination: into the current directory
+            self.copied.setdefault(self.cwd, set()).add(fx[1])
         elif k in ('mk', 'chmod', 'symlink', 'odd', 'rmcwd', 'rmcwd_final', 'env', 'unenv', 'noop'):
             pass
         else:
             raise KeyError(k)
 
     def view(self, which='non'):
-        return {'cwd': self.cwd, 'env': dict(self.act if which == 'act' else self.non), 'timeout': self.timeout}
+        return {'cwd': self.cwd, 'env': dict(self.act if which == 'act' else self.non), 'timeout': self.timeout,
+                'here': sorted(self.copied.get(self.cwd, ()))}
 
 
 def render(fx) -> str:
@@ -74,4 +80,6 @@ def render(fx) -> str:
         return 'timeout = %s' % ('none' if fx[1] is None else fx[1])
     if k == 'cd':
         return 'cd %s' % fx[2]
+    if k == 'copy':
+        return 'copy %s' % fx[1]
     raise KeyError(k)
